@@ -39,7 +39,7 @@ func taxTotalsSrcConfig() *G2LConfig {
 		Imports:   []string{"GoblVerif.Model.TaxOps", "GoblVerif.Model.GoSem"},
 		Opens:     []string{"GoblVerif.TaxTotals (NumOps)"},
 		Preamble:  []string{"variable [NumOps]"},
-		UnitVoid:  true,
+		Own:       true,
 		Structs: map[string]G2LStruct{
 			"Total": {Lean: "GoblVerif.Merge.Total", Fields: map[string]string{
 				"Categories": "categories", "Sum": "sum", "sum": "sumP"}},
